@@ -1,4 +1,5 @@
 """Correspondence for energy_performance: implementation (runner) vs model (coqc) on the same inputs."""
+import random
 from fractions import Fraction
 
 from . import core, gen
@@ -73,7 +74,15 @@ def gen_cases(rng, count, force=None, multi_eval=False, prefix="c", tweak=None):
         # evaluation time explodes; short series exercise the same code)
         if tweak is not None and not (any(lm for (_, _, lm) in evals) and b.n > 3):
             tweak(rng, b)
-        c = EpCase("%s%d" % (prefix, i), {"text": b.text()}, fspec, user, evals, strip=rng.random() < 0.3,
+        text = b.text()
+        # the parameters an evaluation is given are the ones it uses: a third of the files carry CTE_KEXP / CTE_AREAREF metadata
+        # that say something else (the program reconciles them before calling the library; the library does not look at them).
+        # Drawn from a generator of its own so that the stream of buildings is the one it was before.
+        mrng = random.Random("%s-%s-%d-meta" % (prefix, i, len(text)))
+        if mrng.random() < 0.33:
+            text = "#META CTE_KEXP: %s\n#META CTE_AREAREF: %s\n" % (mrng.choice(["1.0", "0.0", "0.5"]), mrng.choice(["100.0", "1.0", "37.5"])) + text
+            b.tags.add("metadata_parameters_differ")
+        c = EpCase("%s%d" % (prefix, i), {"text": text}, fspec, user, evals, strip=rng.random() < 0.3,
                    tags=b.tags)
         c.n = b.n
         cases.append(c)
